@@ -13,12 +13,14 @@ import (
 
 // C14 – only members of an admin group may change configuration (E3h: bounded-exhaustive identity metadata).
 
-var c14Groups = []string{"", "Admin", "AetherROCAdmin", "AetherROCAdminX", "ROC", "T1", "Other", "EnterpriseAdmin"}
+var c14Groups = []string{"", "Admin", "AetherROCAdmin", "AetherROCAdminX", "aetherrocadmin", "T1", "Other", "EnterpriseAdmin"}
 var c14AdminSettings = []string{"", "AetherROCAdmin", "AetherROCAdmin,EnterpriseAdmin"}
 
 type c14Case struct {
 	Admin    string   `json:"admingroups"`
 	Identity bool     `json:"identity"` // the request carries identity metadata (name, groups)
+	NoName   bool     `json:"no_name"`  // identity without a name claim (e.g. a service account: preferred_username only)
+	RocEnv   string   `json:"roc_env"`  // AetherROCAdmin environment variable: "<unset>", "" or a name
 	Groups   []string `json:"groups"`
 	OIDC     bool     `json:"oidc"`
 }
@@ -26,6 +28,9 @@ type c14Case struct {
 func (c c14Case) ctx() context.Context {
 	if !c.Identity {
 		return context.Background()
+	}
+	if c.NoName {
+		return metadata.NewIncomingContext(context.Background(), metadata.Pairs("preferred_username", "svc", "groups", strings.Join(c.Groups, ";")))
 	}
 	return metadata.NewIncomingContext(context.Background(), metadata.Pairs("name", "alice", "preferred_username", "alice", "email", "alice@example.org", "groups", strings.Join(c.Groups, ";")))
 }
@@ -105,6 +110,9 @@ func checkC14(rc *RunCtx) *Report {
 			cases = append(cases, c14Case{Admin: admin})
 			for _, gl := range c14GroupLists(maxLen) {
 				cases = append(cases, c14Case{Admin: admin, Identity: true, Groups: gl})
+				if len(gl) <= 1 {
+					cases = append(cases, c14Case{Admin: admin, Identity: true, NoName: true, Groups: gl})
+				}
 			}
 		}
 	}
@@ -145,63 +153,77 @@ func checkC14(rc *RunCtx) *Report {
 		} else {
 			os.Unsetenv("OIDC_SERVER_URL")
 		}
-		for _, gl := range c14GroupLists(maxLen) {
-			for _, enc := range []gnmi.Encoding{gnmi.Encoding_PROTO, gnmi.Encoding_JSON} {
-				c := c14Case{Identity: true, Groups: gl, OIDC: oidc}
-				resp, err := w.gnmi.Get(c.ctx(), &gnmi.GetRequest{Encoding: enc, Path: []*gnmi.Path{{Target: "*"}}})
-				listEvals++
-				replay := map[string]interface{}{"kind": "c14-list", "case": c}
-				if err != nil {
-					rep.Violate("list/error", fmt.Sprintf("listing all targets with groups %q (oidc %v) fails: %v", gl, oidc, err), replay)
-					continue
-				}
-				var got []string
-				for _, n := range resp.Notification {
-					for _, u := range n.Update {
-						if ll := u.Val.GetLeaflistVal(); ll != nil {
-							for _, e := range ll.Element {
-								got = append(got, e.GetStringVal())
-							}
-						} else if j := u.Val.GetJsonVal(); j != nil {
-							s := string(j)
-							for _, t := range []string{"T1", "T2"} {
-								if strings.Contains(s, `"`+t+`"`) {
-									got = append(got, t)
+		for _, rocEnv := range []string{"<unset>", "", "CustomAdmin"} {
+			if rocEnv == "<unset>" {
+				os.Unsetenv("AetherROCAdmin")
+			} else {
+				os.Setenv("AetherROCAdmin", rocEnv)
+			}
+			rocName := "AetherROCAdmin"
+			if rocEnv != "<unset>" && rocEnv != "" {
+				rocName = rocEnv
+			}
+			lists := c14GroupLists(maxLen)
+			lists = append(lists, []string{"CustomAdmin"}, []string{"CustomAdmin", "Other"})
+			for _, gl := range lists {
+				for _, enc := range []gnmi.Encoding{gnmi.Encoding_PROTO, gnmi.Encoding_JSON} {
+					c := c14Case{Identity: true, Groups: gl, OIDC: oidc, RocEnv: rocEnv}
+					resp, err := w.gnmi.Get(c.ctx(), &gnmi.GetRequest{Encoding: enc, Path: []*gnmi.Path{{Target: "*"}}})
+					listEvals++
+					replay := map[string]interface{}{"kind": "c14-list", "case": c}
+					if err != nil {
+						rep.Violate("list/error", fmt.Sprintf("listing all targets with groups %q (oidc %v) fails: %v", gl, oidc, err), replay)
+						continue
+					}
+					var got []string
+					for _, n := range resp.Notification {
+						for _, u := range n.Update {
+							if ll := u.Val.GetLeaflistVal(); ll != nil {
+								for _, e := range ll.Element {
+									got = append(got, e.GetStringVal())
+								}
+							} else if j := u.Val.GetJsonVal(); j != nil {
+								s := string(j)
+								for _, t := range []string{"T1", "T2"} {
+									if strings.Contains(s, `"`+t+`"`) {
+										got = append(got, t)
+									}
 								}
 							}
 						}
 					}
-				}
-				sort.Strings(got)
-				want := []string{"T1", "T2"}
-				if oidc {
-					want = nil
-					roc := false
-					for _, g := range gl {
-						if g == "AetherROCAdmin" {
-							roc = true
-						}
-					}
-					for _, t := range []string{"T1", "T2"} {
-						named := roc
+					sort.Strings(got)
+					want := []string{"T1", "T2"}
+					if oidc {
+						want = nil
+						roc := false
 						for _, g := range gl {
-							if g == t {
-								named = true
+							if g == rocName {
+								roc = true
 							}
 						}
-						if named {
-							want = append(want, t)
+						for _, t := range []string{"T1", "T2"} {
+							named := roc
+							for _, g := range gl {
+								if g == t {
+									named = true
+								}
+							}
+							if named {
+								want = append(want, t)
+							}
 						}
 					}
-				}
-				distinct[fmt.Sprintf("list|%v|%v", oidc, got)] = true
-				if strings.Join(got, ",") != strings.Join(want, ",") {
-					rep.Violate("list/wrong-targets", fmt.Sprintf("listing all targets with groups %q (oidc %v, %s) shows %v, expected %v", gl, oidc, enc, got, want), replay)
+					distinct[fmt.Sprintf("list|%v|%v", oidc, got)] = true
+					if strings.Join(got, ",") != strings.Join(want, ",") {
+						rep.Violate("list/wrong-targets", fmt.Sprintf("listing all targets with groups %q (oidc %v, AetherROCAdmin=%q, %s) shows %v, expected %v", gl, oidc, rocEnv, enc, got, want), replay)
+					}
 				}
 			}
 		}
 	}
 	os.Unsetenv("OIDC_SERVER_URL")
+	os.Unsetenv("AetherROCAdmin")
 	rep.Coverage["evaluations"] = evals + listEvals
 	rep.Coverage["distinct_nontrivial"] = len(distinct)
 	rep.Coverage["sets_permitted"] = permittedN
